@@ -568,6 +568,6 @@ func init() {
 	AddOp("c07_movestake", (*Sim).opC07MoveStake)
 	simrt.Register("C07", &simrt.PropSpec{Fn: runC07, NonTrivial: c07NonTrivial,
 		Rule: "tape-generated histories of provider stake / modify (increase, decrease, to and below the spec minimum, commission) / move-stake / unstake by vault and by provider address over up to 3 chains, dual-staking delegate / redelegate / unbond by vaults and other delegators, staking-module operations, validator slashes at block start, freeze/unfreeze, relay payments and clock jumps. After every transaction and every block, from GetAllMetadata / GetAllStakeEntriesCurrent / GetProviderDelegators / GetDelegation: metadata chains == chains with a current entry; metadata iff >= 1 entry; sum of entries' Stake == vault's delegation; TotalDelegations == sum of non-vault delegations. After a successful transaction that changed a provider's entry stakes or delegation set: every entry's DelegateTotal == floor(TotalDelegations*Stake/sum Stake) and an entry whose Stake+DelegateTotal went from >= spec min stake to below it is frozen. Non-trivial = >=12 accepted operations incl. >=2 stakes, >=2 delegation changes and >=4 provider-changing transactions",
-		Real:    chainReal, Stubbed: chainStub, Assume: chainAssume})
+		Real: chainReal, Stubbed: chainStub, Assume: chainAssume})
 	_ = sdk.ZeroInt
 }
